@@ -42,14 +42,49 @@ RECORD = [True]
 
 
 # --------------------------------------------------------------------------------------------- callbacks
+class StrSub(str):
+    """a str subclass instance equal to the plain string"""
+
+
+# values that are EQUAL (==) to one another but distinguishable by type / identity: what is stored must be the object
+# the hook chain returned, not something merely equal to it
+_L1, _L2 = [1, 2], [1, 2]
+EQ_VALUES = {"eq:1": 1, "eq:1.0": 1.0, "eq:True": True, "eq:0.0": 0.0, "eq:-0.0": -0.0,
+             "eq:S": StrSub("eq:s"), "eq:L1": _L1, "eq:L2": _L2}        # "eq:s" is the plain string itself
+EQ_CLASSES = [["eq:1", "eq:1.0", "eq:True"], ["eq:0.0", "eq:-0.0"], ["eq:s", "eq:S"], ["eq:L1", "eq:L2"]]
+
+
 def pyval(tok):
-    """the Python object a value token stands for: the token "None" is None itself, "" the empty (falsy) string"""
+    """the Python object a value token stands for: the token "None" is None itself, "" the empty (falsy) string,
+    `eq:*` tokens are ints / floats / bools / str-subclass instances / distinct equal lists"""
+    if tok in EQ_VALUES:
+        return EQ_VALUES[tok]
     return None if tok == "None" else sys.intern(tok)
 
 
 def canon(v):
-    if isinstance(v, str):
+    """exact type and identity, never equality"""
+    if type(v) is str:
         return v
+    if type(v) is StrSub:
+        return "eq:S"
+    if v is _L1:
+        return "eq:L1"
+    if v is _L2:
+        return "eq:L2"
+    if type(v) is bool:
+        return "eq:True" if v else "other:bool"
+    if type(v) is int:
+        return "eq:1" if v == 1 else "other:int"
+    if type(v) is float:
+        import math
+        if v == 1.0:
+            return "eq:1.0"
+        if v == 0.0:
+            return "eq:-0.0" if math.copysign(1.0, v) < 0 else "eq:0.0"
+        return "other:float"
+    if isinstance(v, str):
+        return "other:strsub"
     if v is None:
         return "None"
     if SELF[0] is not None and v is SELF[0]:
